@@ -430,6 +430,21 @@ func genCase(t *rapid.T) Case {
 			c.New[pick] = route.Binding{Verb: v, Tmpl: ow.B.Tmpl}
 		}
 	case "contested":
+		if rapid.Bool().Draw(t, "genNested") {
+			// a variable nested in the pattern of another one, after an arbitrary valid prefix
+			// (which may itself contain plain and patterned variables)
+			pre := route.GenTemplate(t, route.GenOpts{Lits: c16Lits}).String()
+			if i := strings.LastIndex(pre, ":"); i > 0 {
+				pre = pre[:i]
+			}
+			if strings.Contains(pre, "**") {
+				pre = "/" + rapid.SampledFrom(c16Lits).Draw(t, "npre")
+			}
+			inner := "{" + rapid.SampledFrom([]string{"other", "parent", "sub.inner.id"}).Draw(t, "ninner") + rapid.SampledFrom([]string{"", "=*", "=v1/*"}).Draw(t, "ninnerpat") + "}"
+			pat := rapid.SampledFrom([]string{"%s", "v1/%s", "%s/v1", "*/%s", "v1/%s/*"}).Draw(t, "npat")
+			c.New[pick].Tmpl = pre + "/{" + rapid.SampledFrom([]string{"name", "sub.inner.id", "title"}).Draw(t, "nouter") + "=" + fmt.Sprintf(pat, inner) + "}" + rapid.SampledFrom([]string{"", "", ":read", "/v1"}).Draw(t, "ntail")
+			break
+		}
 		c.New[pick].Tmpl = rapid.SampledFrom([]string{
 			"/v1/{name={parent}}", "/{name=v1/{parent}}", "/{name={parent=*}/x}", "/v1/**/x", "/{name=**}/x", "/**/{name}",
 			"/1a", "/v1/-x", "/.a", "/v1/{name}:1", "/{sub.inner.id={name}}", "/{name}/{name}", "/{tags}", "/{sub}", "/v1/{name=**}:x/y",
